@@ -241,6 +241,12 @@ class Specs:
                     return t
         t = self.shapes.get(cls, {}).get(name)
         if t is None and cls in table.classes:
+            # declared on a subclass (the static type was narrowed by an isinstance test at run time)
+            for sub in table.subclasses(cls):
+                t = self.shapes.get(sub, {}).get(name)
+                if t is not None:
+                    return t
+        if t is None and cls in table.classes:
             # a field without a shape declaration (e.g. introduced by a change of the code): inferred type
             key = (cls, name)
             if key not in self._inferred:
@@ -485,7 +491,7 @@ class Specs:
         if name == 'typed':
             # typed(x, 'Class'): dynamic class test
             x = ex.ev1(a[0], st, fr)
-            return vbool(ex.isinstance_term(x.t, a[1].value))
+            return vbool(z3.And(x.t != NONE, ex.isinstance_term(x.t, a[1].value)))
         if name == 'exact_type':
             x = ex.ev1(a[0], st, fr)
             return vbool(cls_of(x.t) == ex.table.class_ids[a[1].value])
